@@ -211,7 +211,7 @@ def universe(tier, seed, shard, nshards):
         cnt = 0
         for data in itertools.combinations_with_replacement(pool, n):
             cnt += 1
-            step = ({3: 4, 4: 110, 5: 2100} if not thorough else {3: 1, 4: 3, 5: 60})[n]
+            step = ({3: 4, 4: 110, 5: 2100} if not thorough else {3: 1, 4: 14, 5: 400})[n]
             if cnt % step:
                 continue
             for k in (2, 3):
@@ -275,7 +275,7 @@ def run(ctx):
         PROP, ctx.tier, ctx.seed, acc,
         rule='for every (data set, configuration) the COMPLETE tree of random outcomes (numpy.random.randint/choice, random.randint owned by the explorer; for choice without replacement every '
              'ordered subset of the support) is enumerated depth-first; a state is one (data set, configuration), validated traces are complete fits; non-trivial = duplicates in the data set or more than one leaf',
-        bounds={'data': 'multisets of n = 3 (every 4th; thorough all), 4 (every 110th; thorough every 3rd), 5 (every 2100th; thorough every 60th) series over a 2-letter alphabet with lengths 2..3; ndim 2: multisets of 3 series of 2 points',
+        bounds={'data': 'multisets of n = 3 (every 4th; thorough all), 4 (every 110th; thorough every 14th), 5 (every 2100th; thorough every 400th) series over a 2-letter alphabet with lengths 2..3; ndim 2: multisets of 3 series of 2 points',
                 'k': '2, 3 (< n)', 'init': 'k-means++, random, initialize_sample_size 1 and 2', 'options': '%d option sets over window, penalty, drop_stddev, use_c, parallel (virtual pool); max_it 1, 2, 10' % len(OPTION_SETS),
                 'leaf_cap': LEAF_CAP},
         assumptions=['all outcomes of non-zero probability are enumerated, which is a superset of all seeds; numpy.random.choice(range(n), k, replace=False) in the random initialisation is only used for its length',
